@@ -331,7 +331,8 @@ EpsWalk(t, s, tok, seen) == IF s < 0 THEN FALSE ELSE IF s \in seen THEN TRUE
 EpsCycle(t) == \E s \in 0 .. Len(t.act) - 1, tok \in Tokens : EpsWalk(t, s, tok, {})
 
 RunDevs(t, a, e, run) ==
-  IF "panic" \in DOMAIN run /\ run.panic # "HARNESS-LOOP" THEN D("ANY", "parser panicked", run.panic)
+  IF "overflow" \in DOMAIN run THEN D("C07", "more errors than lexemes", run.nerrors)
+  ELSE IF "panic" \in DOMAIN run /\ run.panic # "HARNESS-LOOP" THEN D("ANY", "parser panicked", run.panic)
   ELSE IF "panic" \in DOMAIN run THEN
          \* the parse was stopped after 100 000 reductions
          (IF X.cyclic THEN D("SKIP", "reduce loop on cyclic grammar", 0)
